@@ -6,21 +6,21 @@ package main
 // the interface contract (isa.go) prescribes on the array-of-cells view.
 
 import (
-	"os"
 	"fmt"
 	"go/types"
+	"os"
 	"strings"
 
 	"golang.org/x/tools/go/ssa"
 )
 
 type regView struct {
-	name  string
-	sgpr  func(st *State, k Term) Term
-	vgpr  func(st *State, l, k Term) Term
-	scal  map[string]func(st *State) Term // G_scc, G_vcc, G_exec, G_pc, G_m0
-	wf    func(c *Ctx, st *State) Term    // well-formedness of the concrete store
-	nS, nV Term // number of scalar / vector registers in this wavefront's windows
+	name   string
+	sgpr   func(st *State, k Term) Term
+	vgpr   func(st *State, l, k Term) Term
+	scal   map[string]func(st *State) Term // G_scc, G_vcc, G_exec, G_pc, G_m0
+	wf     func(c *Ctx, st *State) Term    // well-formedness of the concrete store
+	nS, nV Term                            // number of scalar / vector registers in this wavefront's windows
 	bases  func(st *State) [2]Term
 	others func(st0, st1 *State, j Term) (Term, Term) // bytes outside this wavefront's windows are unchanged
 }
@@ -316,11 +316,11 @@ func (c *Ctx) timingView(f *Frame, wf Term, wfT types.Type) *regView {
 	v := &regView{name: "timing", nS: c.Fresh("nSGPR", SBV(64)), nV: c.Fresh("nVGPR", SBV(64))}
 	fld := func(st *State, obj Term, t types.Type, name string) *Val { return c.fieldOf(st, obj, t, name) }
 	type parts struct {
-		acc, cu, sfile, vfile         Term
-		sst, vst                      *Val
-		soff, voff, bpl, simd         Term
-		accTag, sTag, vTag, accWF     Term
-		vrf                           *Val
+		acc, cu, sfile, vfile     Term
+		sst, vst                  *Val
+		soff, voff, bpl, simd     Term
+		accTag, sTag, vTag, accWF Term
+		vrf                       *Val
 	}
 	get := func(st *State) parts {
 		var p parts
